@@ -216,6 +216,12 @@ def t_ctx(x=0, tag=None, base=0, *a, **k):
     return (tag, base + x)
 
 
+def f_after(seconds, value):
+    """returns `value` after `seconds` of silence"""
+    time.sleep(seconds)
+    return value
+
+
 # ---- C09: pool target: squares; 'hang' -> uncooperative loop; negative -> raises (kills the worker)
 def t_pool(x=0, *a, **k):
     if x == 'hang':
